@@ -80,17 +80,16 @@ pub fn err_class(code: &str, _message: &str) -> &'static str {
     }
 }
 
-/// An Assertion's lifecycle status as the model's `val`: 0 = active, 1 = retracted, 2 = the empty
-/// status of a row that went through `governance::purge::stub` (a default row: a following
-/// `RETRACT … EXPECT STATE "active"` of the same Assertion fails its guard; a following ARCHIVE /
-/// TOMBSTONE changes the state and keeps the empty status). Only the empty status of a not yet
-/// filled-in `pending` shell stays 0: no generated clause reads it.
-fn assertion_status_code(status: &str, state: &str) -> u32 {
-    match status {
-        "retracted" => 1,
-        "" if state != "pending" => 2,
-        _ => 0,
-    }
+/// `retention.retention_class` = "r<k>" as the code k (0 = no retention block)
+fn ret_code(retention: &Value) -> u32 {
+    retention.get("retention_class").and_then(|v| v.as_str()).map(code_of).unwrap_or(0)
+}
+/// the row number of an element id string (`A-3` -> 3)
+fn row_number(id: &str) -> u64 {
+    id.rsplit('-').next().and_then(|n| n.parse().ok()).unwrap_or(0)
+}
+fn row_numbers(ids: &[String]) -> Vec<u64> {
+    ids.iter().map(|i| row_number(i)).collect()
 }
 
 #[derive(Clone, Debug, PartialEq, Eq)]
@@ -102,6 +101,10 @@ pub struct RawElem {
     pub val: u32,
     pub att: u32,
     pub fac: u32,
+    /// `retention.retention_class` as a code (0 = no retention block)
+    pub ret: u32,
+    /// `supersedes` of an Assertion / `corrects` of Evidence: the row numbers, in stored order
+    pub links: Vec<u64>,
     pub pay: u32,
     pub tup: String,
     pub seq: u64,
@@ -137,7 +140,7 @@ impl RawDump {
     pub fn canon(&self) -> String {
         let mut ids: Vec<&String> = self.elems.keys().collect();
         ids.sort_by_key(|i| id_sort_key(i));
-        let elems: Vec<String> = ids.iter().map(|i| { let e = &self.elems[*i]; format!("{i}/{}/{}/{}/{}/{}.{}.{}/{}/{}/{}", e.version, e.state, e.ty, e.key, e.val, e.att, e.fac, e.pay, e.tup, e.seq) }).collect();
+        let elems: Vec<String> = ids.iter().map(|i| { let e = &self.elems[*i]; format!("{i}/{}/{}/{}/{}/{}.{}.{}.{}.{}/{}/{}/{}", e.version, e.state, e.ty, e.key, e.val, e.att, e.fac, e.ret, if e.links.is_empty() { "0".to_string() } else { e.links.iter().map(|n| n.to_string()).collect::<Vec<_>>().join("_") }, e.pay, e.tup, e.seq) }).collect();
         let journal: Vec<String> = self.journal.iter().map(|(s, st, ch, _, _)| format!("{s}/{st}/{ch}")).collect();
         let vlog: Vec<String> = self.vlog.iter().map(|(i, v, s, o, _)| format!("{i}/{v}/{s}/{o}")).collect();
         let j = |v: Vec<String>| if v.is_empty() { "-".to_string() } else { v.join(";") };
@@ -299,16 +302,16 @@ impl World {
                 let Ok(el) = store.get_element(ElementId::new(kind, n)).await else { continue };
                 let id = format!("{c}{n}");
                 let (full, mut e) = match &el {
-                    Element::Concept(r) => (serde_json::to_value(r).unwrap_or(Value::Null), RawElem { version: r.version, state: r.state.clone(), ty: type_code(&r.schema_ref), key: code_of(&r.key), val: code_of(&r.name), att: code_of(r.attributes.get("note").and_then(|v| v.as_str()).unwrap_or("")), fac: r.facets.iter().find(|(k, _)| k.as_str() == "MnemonicState" || k.ends_with("/MnemonicState")).and_then(|(_, f)| f.get("salience")).and_then(|v| v.as_f64()).map(|x| (x * 10.0).round() as u32).unwrap_or(0), pay: 0, tup: "-".into(), seq: r.seq, schema_ref: r.schema_ref.clone(), key_text: r.key.clone(), tuple_key: String::new(), full: String::new() }),
+                    Element::Concept(r) => (serde_json::to_value(r).unwrap_or(Value::Null), RawElem { version: r.version, state: r.state.clone(), ty: type_code(&r.schema_ref), key: code_of(&r.key), val: code_of(&r.name), att: code_of(r.attributes.get("note").and_then(|v| v.as_str()).unwrap_or("")), fac: r.facets.iter().find(|(k, _)| k.as_str() == "MnemonicState" || k.ends_with("/MnemonicState")).and_then(|(_, f)| f.get("salience")).and_then(|v| v.as_f64()).map(|x| (x * 10.0).round() as u32).unwrap_or(0), ret: ret_code(&r.retention), links: vec![], pay: 0, tup: "-".into(), seq: r.seq, schema_ref: r.schema_ref.clone(), key_text: r.key.clone(), tuple_key: String::new(), full: String::new() }),
                     Element::Proposition(r) => {
                         let tup = if r.tuple_key.starts_with("pending:") || r.tuple_key.starts_with("purged:") { "-".to_string() } else {
                             format!("{}>{}>{}", compact_id(r.subject["id"].as_str().unwrap_or("?")), pred_code(&r.predicate_ref), compact_id(r.object["id"].as_str().unwrap_or("?")))
                         };
-                        (serde_json::to_value(r).unwrap_or(Value::Null), RawElem { version: r.version, state: r.state.clone(), ty: pred_code(&r.predicate_ref), key: 0, val: 0, att: 0, fac: 0, pay: 0, tup, seq: r.seq, schema_ref: String::new(), key_text: String::new(), tuple_key: r.tuple_key.clone(), full: String::new() })
+                        (serde_json::to_value(r).unwrap_or(Value::Null), RawElem { version: r.version, state: r.state.clone(), ty: pred_code(&r.predicate_ref), key: 0, val: 0, att: 0, fac: 0, ret: ret_code(&r.retention), links: vec![], pay: 0, tup, seq: r.seq, schema_ref: String::new(), key_text: String::new(), tuple_key: r.tuple_key.clone(), full: String::new() })
                     }
-                    Element::Assertion(r) => (serde_json::to_value(r).unwrap_or(Value::Null), RawElem { version: r.version, state: r.state.clone(), ty: 0, key: 0, val: assertion_status_code(&r.status, &r.state), att: 0, fac: 0, pay: if r.proposition_id.is_empty() { 0 } else { (r.confidence * 100.0).round() as u32 }, tup: "-".into(), seq: r.seq, schema_ref: String::new(), key_text: String::new(), tuple_key: String::new(), full: String::new() }),
-                    Element::Evidence(r) => (serde_json::to_value(r).unwrap_or(Value::Null), RawElem { version: r.version, state: r.state.clone(), ty: 0, key: 0, val: 0, att: 0, fac: 0, pay: code_of(r.payload_inline.as_str().unwrap_or("")), tup: "-".into(), seq: r.seq, schema_ref: String::new(), key_text: String::new(), tuple_key: String::new(), full: String::new() }),
-                    Element::Activity(r) => (serde_json::to_value(r).unwrap_or(Value::Null), RawElem { version: r.version, state: r.state.clone(), ty: 0, key: 0, val: 0, att: 0, fac: 0, pay: code_of(&r.parameters_digest), tup: "-".into(), seq: r.seq, schema_ref: String::new(), key_text: String::new(), tuple_key: String::new(), full: String::new() }),
+                    Element::Assertion(r) => (serde_json::to_value(r).unwrap_or(Value::Null), RawElem { version: r.version, state: r.state.clone(), ty: 0, key: 0, val: status_code(&r.status), att: 0, fac: 0, ret: ret_code(&r.retention), links: row_numbers(&r.supersedes), pay: if r.proposition_id.is_empty() { 0 } else { (r.confidence * 100.0).round() as u32 + 100 * row_number(&r.proposition_id) as u32 }, tup: "-".into(), seq: r.seq, schema_ref: String::new(), key_text: String::new(), tuple_key: String::new(), full: String::new() }),
+                    Element::Evidence(r) => (serde_json::to_value(r).unwrap_or(Value::Null), RawElem { version: r.version, state: r.state.clone(), ty: 0, key: 0, val: status_code(&r.status), att: 0, fac: 0, ret: ret_code(&r.retention), links: row_numbers(&r.corrects), pay: code_of(r.payload_inline.as_str().unwrap_or("")), tup: "-".into(), seq: r.seq, schema_ref: String::new(), key_text: String::new(), tuple_key: String::new(), full: String::new() }),
+                    Element::Activity(r) => (serde_json::to_value(r).unwrap_or(Value::Null), RawElem { version: r.version, state: r.state.clone(), ty: 0, key: 0, val: status_code(&r.status), att: 0, fac: 0, ret: ret_code(&r.retention), links: vec![], pay: code_of(&r.parameters_digest), tup: "-".into(), seq: r.seq, schema_ref: String::new(), key_text: String::new(), tuple_key: String::new(), full: String::new() }),
                 };
                 e.full = full.to_string();
                 d.elems.insert(id, e);
